@@ -688,3 +688,6 @@ fn k04_enum_fields_plain_tagged() {
     fields_case!(false, false, 2, true)
 }
 
+
+// ("enumerator values unique" with a symbolic value - two enumerators, the second value any i128, through the private
+// enumerator_values_are_unique - did not leave symbolic execution in 20 min: a symbolic key hashed into hashbrown.)
